@@ -17,11 +17,11 @@ def setup():
     M.update(I=I, V=V, GA=GA, G=G, C=C)
 
 
-# id -> (contig, SO, LN, SR).  hapA's two segments are separated on the haplotype contig.
+# id -> (contig, SO, LN, SR).  hap-A.1's two segments are separated on the haplotype contig.
 LAY = {
     "s0": ("chr1", 0, 10, 0), "s1": ("chr1", 10, 15, 0), "s2": ("chr1", 25, 5, 0),
-    "a0": ("hapA", 100, 4, 1), "a1": ("hapA", 110, 10, 1),
-    "b0": ("hapB", 7, 2, 2),
+    "a0": ("hap-A.1", 100, 4, 1), "a1": ("hap-A.1", 110, 10, 1),
+    "b0": ("hap_B#2", 7, 2, 2),
 }
 LINKS = [("s0", "+", "s1", "+"), ("s1", "+", "s2", "+"), ("s0", "+", "a0", "+"), ("a0", "+", "s1", "+"), ("s1", "+", "a1", "+"),
          ("a1", "+", "s2", "+"), ("s1", "+", "b0", "-"), ("b0", "-", "s2", "+"), ("s1", "+", "s0", "+")]
@@ -53,6 +53,8 @@ def ptext(w):
     return "".join(o + nm(n) for o, n in parse_walk(w))
 
 
+REAL_READER = [False]  # True: the GAF is read by the real gaftools.gaf.GAF class from the model file, not by the reader stub
+NONL = [False]  # the GAF's last line is not newline-terminated (plain text files only)
 GFA_ORDER = [None]  # S-line order of the model graph (None = SO order within each contig)
 
 
@@ -126,8 +128,12 @@ def nodes_under(contig, ps, pe):
 def install_files(recs, cookies, gz, gfa_gz=False):
     e = stubs.env()
     lines = [record_line(i, *r[:4]) for i, r in enumerate(recs)]
-    e.files["in.gaf"] = stubs.MFile("bgzf" if gz else "text", lines, cookies)
-    e.gaf_records["in.gaf"] = [(cookies[i], (lambda i=i, r=r: record_alignment(i, *r[:4]))) for i, r in enumerate(recs)]
+    flines = lines
+    if NONL[0] and not gz and lines:
+        flines = lines[:-1] + [lines[-1].rstrip("\n")]
+    e.files["in.gaf"] = stubs.MFile("bgzf" if gz else "text", flines, cookies)
+    if not REAL_READER[0]:
+        e.gaf_records["in.gaf"] = [(cookies[i], (lambda i=i, r=r: record_alignment(i, *r[:4]))) for i, r in enumerate(recs)]
     name = "g.gfa.gz" if gfa_gz else "g.gfa"
     e.files[name] = stubs.MFile("gzip" if gfa_gz else "text", gfa_lines(), None)
     return lines, name
@@ -196,7 +202,8 @@ def write_real(wd, recs, gz=False):
         tags = "".join("\t" + k + v for k, v in TAGS)
         lines.append("%s\t50\t0\t10\t+\t%s\t%d\t%d\t%d\t9\t10\t60%s" % (rname(i), r[0], r[1], r[2], r[3], tags))
     gaf = os.path.join(wd, "in.gaf")
-    open(gaf, "w").write("".join(l + "\n" for l in lines))
+    text = "".join(l + "\n" for l in lines)
+    open(gaf, "w").write(text[:-1] if (NONL[0] and not gz) else text)
     if gz:
         pysam.tabix_compress(gaf, gaf + ".gz", force=True)
         gaf += ".gz"
@@ -268,4 +275,40 @@ def big_bgzf_index(wd, recs, rep=1500):
         if len(set(offs)) < want:
             return "node %s lists %d distinct offsets, %d records traverse it" % (k[0], len(set(offs)), want)
     fh.close()
+    return None
+
+
+def big_bgzf_view(wd, recs, query, rep=1500):
+    """the same records repeated `rep` times through bgzip (several BGZF blocks): index + view -n on the compressed file must select
+    exactly the copies of the records that traverse a queried node, in file order.  Returns None or a description of the problem."""
+    import gc
+    import pysam
+    import gaftools.cli.index as I
+    import gaftools.cli.view as V
+    from gaftools.cli import CommandLineError
+
+    gfa = os.path.join(wd, "bigv.gfa")
+    open(gfa, "w").write("".join(gfa_lines()))
+    gaf = os.path.join(wd, "bigv.gaf")
+    tags = "".join("\t" + k + v for k, v in TAGS)
+    sel = [i for i, r in enumerate(recs) if any(n in query for n in expected_nodes(r))]
+    with open(gaf, "w") as fh:
+        for j in range(rep):
+            for i, r in enumerate(recs):
+                fh.write("r%dx%d\t50\t0\t10\t+\t%s\t%d\t%d\t%d\t9\t10\t60%s\tzz:Z:%s\n" % (i, j, r[0], r[1], r[2], r[3], tags, "pad" * 10))
+    pysam.tabix_compress(gaf, gaf + ".gz", force=True)
+    out = os.path.join(wd, "bigv.out")
+    try:
+        I.run(gaf + ".gz", gfa)
+        V.run(gaf + ".gz", output=out, nodes=[nm(q) for q in query])
+    except CommandLineError:
+        return None if not sel else "view -n on a %d-record BGZF file reports nothing for %r" % (rep * len(recs), query)
+    except BaseException as e:  # noqa
+        return "index + view -n %r on a %d-record BGZF file (several blocks) raised %s: %s" % (query, rep * len(recs), type(e).__name__, e)
+    gc.collect()
+    got = [l.split("\t")[0] for l in open(out).read().splitlines()]
+    want = ["r%dx%d" % (i, j) for j in range(rep) for i in sel]
+    if got != want:
+        return "view -n %r on a %d-record BGZF file (several blocks) printed %d records (first %r), expected %d (first %r)" % (
+            query, rep * len(recs), len(got), got[:3], len(want), want[:3])
     return None
